@@ -104,8 +104,13 @@ def _gen_ops(rng, depth, budget, allow_spawn, nrefs):
                   'exit': rng.choice(['raise', 'raise', 'raise_base'])
                           if rng.random() < 0.25 else 'normal',
                   'body': _gen_ops(rng, depth + 1, budget, allow_spawn, nrefs)})
-    elif r < 0.5:
+    elif r < 0.47:
       ops.append({'op': 'obs'})
+    elif r < 0.5:
+      # the configuration is cleared (and parsed again at once) in the middle of
+      # whatever scopes are open: the scopes are not part of the configuration
+      ops.append({'op': 'clear_reparse',
+                  'constants': rng.random() < 0.3})
     elif r < 0.68:
       op = {'op': 'call', 'raises': rng.random() < 0.2}
       if rng.random() < 0.25 and depth < 4:
@@ -292,7 +297,8 @@ def _execute(case, policy, replay, hint):
     consumers.append(probes.register_probe({'name': 'c%d' % i}, cobj))
     lines.append('c%d.x = @%sf0%s' % (i, r['scope'] + '/' if r['scope'] else '',
                                       '()' if r['evaluate'] else ''))
-  gin.parse_config('\n'.join(lines))
+  config_text = '\n'.join(lines)
+  gin.parse_config(config_text)
   bound = case['bound']
 
   def check_scope(st, expect, where, detail=None):
@@ -374,6 +380,21 @@ def _execute(case, policy, replay, hint):
       kind = op['op']
       if kind == 'obs':
         check_scope(st, cur, 'obs')
+      elif kind == 'clear_reparse':
+        with s.atomic():
+          # Only while this is the only live thread: what a call sees when the
+          # configuration is cleared under it by another thread is nobody's
+          # promise.
+          if sum(1 for o in s.threads if o.state != 'done') != 1:
+            continue
+          try:
+            gin.clear_config(clear_constants=op['constants'])
+            gin.parse_config(config_text)
+          except Exception as e:  # pylint: disable=broad-except
+            v('C09.no_fail', ['clear_config', type(e).__name__],
+              'thread %d: clear_config / re-parse raised %r' % (st['tid'], e))
+          counters['clears'] = counters.get('clears', 0) + 1
+        check_scope(st, cur, 'after-clear_config')
       elif kind == 'call':
         guarded(st, lambda: f0c(), cur, 'call', op, cur)
       elif kind == 'getcfg':
